@@ -31,7 +31,7 @@ CLAIMS = {
         note="Decoders written from the shell manuals are the oracle (shells are not executed); str::replace/format! enter through shims with assumed contracts (prelude/strings.rs), rewrite rules R4/R5/R7; pwsh typographic quotes excluded by precondition; runtime use of $literal as glob is out of reach.",
         design="§7 C07", tech="Verus contracts on mechanically extracted functions (postcondition = decoder round trip); bounded twin for replay", cat="proof"),
     "C08": dict(
-        text="Verus proves the cycle clause on the real check::traverse_nonterminal_dependencies_dfs (rules R1, R14, R15): a cycle is reported only when the dependency graph it is given has a closed walk (the walk is exhibited from the search path), and a run that reports none extends `result` to an order in which every name comes after all the names it depends on; lemma_topo_acyclic: a graph all of whose names are in such an order has no closed walk (so acyclic definitions pass and cyclic ones cannot). Kani (on items extracted verbatim each run): is_valid_command_name rejects exactly names containing '/', Shell::from_str accepts exactly bash/fish/zsh/pwsh and returns UnknownShell with the given span otherwise (names <= 4 ASCII bytes: labelled bounded). Bounded stand-ins: a table of planted mistakes of every class in several placements (cycles behind chains / beside unrelated definitions / with tails / several name orders, duplicates per shell, specialisations, words, clashing descriptions at every offset) and clean look-alikes, x 4 shells, compared with the Error variant the real pipeline returns; and a semantic verdict oracle over the pipeline corpus.",
+        text="Verus proves the cycle clause on the real check::traverse_nonterminal_dependencies_dfs (rules R1, R14, R15): a cycle is reported only when the dependency graph it is given has a closed walk (the walk is exhibited from the search path), and a run that reports none extends `result` to an order in which every name comes after all the names it depends on; lemma_topo_acyclic: a graph all of whose names are in such an order has no closed walk (so acyclic definitions pass and cyclic ones cannot). Grammar::get_specializations (unit c11b): it fails exactly when there is a shell-specific (or, for a specialised name, plain) definition that is not an external command, a duplicate definition for the target shell, or an unknown shell name, and each error names a real mistake of its kind. Kani (on items extracted verbatim each run): is_valid_command_name rejects exactly names containing '/', Shell::from_str accepts exactly bash/fish/zsh/pwsh and returns UnknownShell with the given span otherwise (names <= 4 ASCII bytes: labelled bounded). Bounded stand-ins: a table of planted mistakes of every class in several placements (cycles behind chains / beside unrelated definitions / with tails / several name orders, duplicates per shell, specialisations, words, clashing descriptions at every offset) and clean look-alikes, x 4 shells, compared with the Error variant the real pipeline returns; and a semantic verdict oracle over the pipeline corpus.",
         note="That get_nonterminals_resolution_order builds the right dependency graph and starts the search from every name, and the other mistake classes (duplicates, call variants, word mistakes, clashing descriptions), are decided by the bounded stand-ins only. Termination of the search unverified. Two recorded known findings (conservative UnboundedMatchable; SubwordSpaces through a definition edge).",
         design="§7 C08", tech="Verus contract on the extracted dependency search (soundness of the cycle report, dependency-respecting order otherwise, acyclicity lemma); Kani harnesses on the extracted is_valid_command_name / Shell::from_str (bounded by name length, labelled); bounded classification table and verdict oracle on the real pipeline (stand-in)", cat="proof"),
     "C09": dict(
@@ -39,8 +39,8 @@ CLAIMS = {
         note="Not a proof; bash execution not covered.",
         design="§7 C09", tech="Kani full-domain harnesses on the extracted symbol type Inp (equality is structural; same-text literals are one symbol: fails = known finding D10); bounded exact determinism / language comparison on the real automaton (stand-in)", cat="proof"),
     "C11": dict(
-        text="Verus proves on the real check.rs: specialize_nonterminals (rule R3), for the whole tree: the result is the same tree in which every reference the target shell has a command for has become that command (lookup order: target-shell definition, then built-in, then plain command fallback; zsh_compadd set only for zsh; level/span kept) and nothing else changed; resolve_nonterminals, for the whole tree: a reference to a defined name is replaced by that definition's tree, and the set of names the result still refers to is exactly the undefined names of the input plus the names referred to by the definitions used (so nothing defined survives once its definitions are closed); make_builtin_specializations: the table's domain is exactly PATH and DIRECTORY and the directory command differs from the path command for every shell; every pass leaves the arena a well-formed extension of the old one. The property-level statement is decided by exhaustive enumeration of the property's own finite quantifier (3 names x 32 definition subsets x 3 reference positions x 4 shells = 1152 grammars) on the real pipeline.",
-        note="Assumed: UstrMap/Ustr shims, derived Clone of Expr, rules R3/R10/R7. get_specializations, the resolution order and the from_grammar glue (incl. 'plain definition overrides the built-in') are bounded only; emitted script bodies not covered; termination unverified.",
+        text="Verus proves on the real check.rs: specialize_nonterminals (rule R3), for the whole tree: the result is the same tree in which every reference the target shell has a command for has become that command (lookup order: target-shell definition, then built-in, then plain command fallback; zsh_compadd set only for zsh; level/span kept) and nothing else changed; resolve_nonterminals, for the whole tree: a reference to a defined name is replaced by that definition's tree, and the set of names the result still refers to is exactly the undefined names of the input plus the names referred to by the definitions used (so nothing defined survives once its definitions are closed); Grammar::get_specializations: the tables it returns hold exactly the `<X@S>` command definitions for the target shell S (and, for the names so specialised, their plain command definitions); definitions for other shells can only make it fail, never change the tables; make_builtin_specializations: the table's domain is exactly PATH and DIRECTORY and the directory command differs from the path command for every shell; every pass leaves the arena a well-formed extension of the old one. The property-level statement is decided by exhaustive enumeration of the property's own finite quantifier (3 names x 32 definition subsets x 3 reference positions x 4 shells = 1152 grammars) on the real pipeline.",
+        note="Assumed: UstrMap/Ustr shims, derived Clone of Expr, rules R3/R10/R7. the resolution order and the from_grammar glue (incl. 'plain definition overrides the built-in') are bounded only; emitted script bodies not covered; termination unverified.",
         design="§7 C11", tech="Verus contracts on the extracted specialize_nonterminals / resolve_nonterminals / make_builtin_specializations; exhaustive enumeration of the property's finite quantifier on the real pipeline", cat="proof"),
     "C13": dict(
         text="Verus proves that HumanSpan::from_range / from_machine build well-formed spans (start = position of `before`; end on the same line; multi-line constructs end inside their first line) and that the *_machine accessors cannot underflow. Bounded stand-in: every span stored by the real parser for the corpus re-laid-out over several lines lies inside its source line.",
